@@ -510,6 +510,12 @@ func dischargeAll(res *FnResult, opts *runOpts) {
 			}
 			fmt.Fprintf(&b, "(assert %s)\n(check-sat)\n", o.Reach)
 			r := discharge(b.String(), dir, o.Name, 3, opts.seed, true)
+			if r.status != "unsat" {
+				// a contradiction among quantified hypotheses is found or missed depending on the
+				// instantiation order: try a second seed (the prelude inconsistency of DESIGN 11.4
+				// showed up with one seed out of many)
+				r = discharge(b.String(), dir, o.Name+".s2", 3, opts.seed+1, true)
+			}
 			if r.status == "unsat" {
 				cmu.Lock()
 				res.VacuousAt = append(res.VacuousAt, o.Name)
